@@ -203,7 +203,10 @@ def _rand_dec(rnd, dw, depth, tier, aw):
         elif m == "exp":
             w["addr"] = "auto"
         wins.append(w)
-    return {"k": "dec", "aw": aw, "align": rnd.choice([0, 0, 0, 1, 3, 4]), "wins": wins}
+    node = {"k": "dec", "aw": aw, "align": rnd.choice([0, 0, 0, 1, 3, 4]), "wins": wins}
+    if rnd.random() < 0.3:
+        node["desc"] = True        # all windows at explicit addresses, added from the highest address down
+    return node
 
 
 def _sub_aw(node, dw):
@@ -218,6 +221,16 @@ def _sub_aw(node, dw):
 def _fix_explicit(node, dw, rnd):
     if node["k"] != "dec":
         return
+    if node.get("desc"):
+        for w in node["wins"]:
+            _fix_explicit(w["node"], dw, rnd)
+        sizes = [1 << max(_sub_aw(w["node"], dw), node.get("align", 0)) for w in node["wins"]]
+        big = max(sizes)
+        if big * len(sizes) <= (1 << node["aw"]):
+            for i, w in enumerate(node["wins"]):
+                w.pop("align_to", None)
+                w["addr"] = big * (len(sizes) - 1 - i)      # descending
+        return
     for w in node["wins"]:
         _fix_explicit(w["node"], dw, rnd)
         if w.get("addr") == "auto":
@@ -229,6 +242,9 @@ def _fix_explicit(node, dw, rnd):
 def configs(tier, seed):
     rnd = random.Random(seed + 101)
     out = []
+    # finding D4's layout (refused with ValueError since the fix) behind a decoder: it must stay refused or work
+    d4 = {"k": "mux", "aw": 3, "align": 0, "ov": 0, "regs": [{"w": 8, "acc": "rw", "addr": 0}, {"w": 16, "acc": "rw", "addr": 1},
+                                                             {"w": 8, "acc": "rw", "addr": 4}, {"w": 24, "acc": "rw", "addr": 5}]}
     want = 90 if tier == "quick" else 1500
     tries = 0
     while len(out) < want and tries < want * 30:
@@ -261,6 +277,17 @@ def configs(tier, seed):
         except ValueError:
             continue
         out.append(cfg)
+    for ov in (0, 1):
+        cfg = {"root": "csr", "dw": 8, "tree": {"k": "dec", "aw": 6, "align": 0,
+                                                "wins": [{"node": dict(d4, ov=ov), "named": True},
+                                                         {"node": {"k": "bridge", "aw": 3, "widths": [8]}, "named": False}]}}
+        try:
+            top, bus, stubs, srams = _build(cfg)
+            from amaranth.hdl import Fragment
+            Fragment.get(top, None)
+            out.append(cfg)
+        except ValueError:
+            pass
     return out
 
 
